@@ -2,13 +2,18 @@
 //
 // For every generated case (a table written by the real write_fits, with aux keys added by the real write_key)
 // and every convolution configuration it prints
-//   case line  (input of the Lean driver):  C <objsize> <ndim> <n> <convdim> <doconv> <nauxK> <naux> {order nknots naxes}*ndim {keylen vallen}*naux
+//   case line  (input of the Lean driver):  C <objsize> <ndim> <n> <convdim> <doconv> <nauxK> <naux> {order nknots naxes}*ndim {keylen vallen storedlen}*naux
 //   impl line  (what the real code did)   :  est <E> estdef <E'> peak <P> live <L> ev <a|f><bytes> ... | <a|f><bytes> ...
+//                                            or, when the library refused the file:  rejected est <E> peak <P> live <L> <message>
 // The case line is computed WITHOUT the code under test where possible: shapes come from the table the harness built,
 // key/value lengths from a cfitsio-only dump of the cards of HDU 1 (cross-checked against the keys the harness wrote),
-// nauxK from a cfitsio-only dump of the last KNOTS extension.
+// storedlen from the harness' own un-quoting of the raw card value (cross-checked against the string the loaded table
+// holds), nauxK from a cfitsio-only dump of the last KNOTS extension.
+// Besides the keys written through write_key (always quoted strings in the file) the harness adds, with cfitsio alone,
+// cards whose value is NOT quoted (integer, floating point, logical, HISTORY): for those the reader keeps the first block.
 //
-// usage: c19_harness <ncases> <outprefix> [profile]     profile: G (generated, consistent files) | I (inconsistent image size)
+// usage: c19_harness <ncases> <outprefix> [profile]     profile: G (generated, consistent files) | I (files the reader must refuse:
+//        image axis larger / smaller than nknots-order-1, fewer than 2*order+2 knots)
 #include "common.h"
 #include <unistd.h>
 #include <sys/wait.h>
@@ -99,6 +104,43 @@ bool dump_cards(const std::string& path, int hdunum, const char* extname, std::v
   return err == 0;
 }
 
+// The harness' own statement of what the table stores for a raw card value: a value that starts with a quote loses
+// that quote and a closing quote at its very end, and every pair of quotes inside becomes one quote.
+std::string unquote_own(const std::string& raw) {
+  if (raw.empty() || raw[0] != '\'') return raw;
+  size_t b = 1, e = raw.size();
+  if (e >= 2 && raw[e - 1] == '\'') e--;
+  std::string out;
+  for (size_t i = b; i < e; i++) {
+    out += raw[i];
+    if (raw[i] == '\'' && i + 1 < e && raw[i + 1] == '\'') i++;
+  }
+  return out;
+}
+std::string rtrim(std::string s) { while (!s.empty() && s[s.size() - 1] == ' ') s.erase(s.size() - 1); return s; }
+
+// cards with unquoted values, written with cfitsio alone into the primary header of an existing file
+bool add_plain_cards(const std::string& path, psv::Rng& r, int n, std::vector<std::pair<std::string, std::string> >& wrote, std::map<int, long>& h_kind) {
+  fitsfile* f; int err = 0, type = 0;
+  fits_open_diskfile(&f, path.c_str(), READWRITE, &err);
+  if (err) return false;
+  fits_movabs_hdu(f, 1, &type, &err);
+  bool history = false;
+  for (int a = 0; a < n && !err; a++) {
+    std::ostringstream k; k << "ZP" << a << "X" << r.below(1000);
+    int kind = r.below(history ? 3 : 4);
+    h_kind[kind]++;
+    switch (kind) {
+      case 0: { long v = (long)(r.next() % 2000000) - 1000000; fits_write_key(f, TLONG, k.str().c_str(), &v, NULL, &err); wrote.push_back(std::make_pair(k.str(), std::string("\x01"))); break; }
+      case 1: { double v = (r.unit() - 0.5) * std::ldexp(1.0, r.range(-40, 40)); fits_write_key(f, TDOUBLE, k.str().c_str(), &v, NULL, &err); wrote.push_back(std::make_pair(k.str(), std::string("\x01"))); break; }
+      case 2: { int v = r.coin(); fits_write_key(f, TLOGICAL, k.str().c_str(), &v, NULL, &err); wrote.push_back(std::make_pair(k.str(), std::string("\x01"))); break; }
+      default: { fits_write_history(f, "written by the C19 harness", &err); wrote.push_back(std::make_pair(std::string("HISTORY"), std::string("\x01"))); history = true; break; }
+    }
+  }
+  int e2 = 0; fits_close_file(f, &e2);
+  return err == 0 && e2 == 0;
+}
+
 std::string gen_key(psv::Rng& r, std::set<std::string>& used, bool longkey) {
   static const char alpha[] = "ABCDEFGHIJKLMNOPQRSTUVWXYZ0123456789";
   for (;;) {
@@ -118,7 +160,11 @@ std::string gen_value(psv::Rng& r, size_t maxlen) {
   }
   std::string v;
   static const char chars[] = "abcdefghijklmnopqrstuvwxyzABCDEFGHIJKLMNOPQRSTUVWXYZ0123456789 .,:;+-*/_()[]<>=!?#$%&@^~|";
-  for (size_t i = 0; i < len; i++) v += chars[r.below(sizeof(chars) - 1)];
+  // embedded quotes (stored doubled in the card, un-doubled by the reader): none / a few / many
+  int qrate = r.below(4) == 0 ? (r.coin() ? 3 : 12) : 0;
+  for (size_t i = 0; i < len; i++) v += (qrate && (int)r.below(qrate) == 0) ? '\'' : chars[r.below(sizeof(chars) - 1)];
+  // write_key accepts a value when its length plus the number of its quotes fits
+  while (v.size() + (size_t)std::count(v.begin(), v.end(), '\'') > maxlen) v.erase(v.size() - 1);
   return v;
 }
 
@@ -151,6 +197,8 @@ int main(int argc, char** argv) {
   std::map<int, long> h_ndim, h_naux, h_n, h_order; long h_conv = 0, h_noconv = 0, h_long = 0, h_short = 0, lines = 0;
   std::map<int, long> h_card;  // keylen+vallen histogram
   long reserved_disagree = 0, dealloc_mismatch = 0, aux_cross_fail = 0, h_skipped0 = 0, h_rejected = 0;
+  long stored_cross_fail = 0, h_quoted = 0, h_unquoted = 0, h_with_inner_quotes = 0, rejected_peak_over_estimate = 0, rejected_live_nonzero = 0;
+  std::map<int, long> h_plainkind, h_ikind, h_shrink;
   bool fast0 = factorial0_is_fast();
 
   for (long c = 0; c < ncases; c++) {
@@ -183,11 +231,23 @@ int main(int argc, char** argv) {
       for (size_t j = 0; j < coef.size(); j++) coef[j] = (float)(r.unit() * 2 - 1);
       psv::build_table(t, ord, kn, coef);
       if (profile == 'I') {
-        // inconsistent file: the coefficient image is larger than nknots-order-1 in one dimension (the reader does not compare them)
+        // a file the reader must refuse: in one dimension the coefficient image does not have nknots-order-1 entries
+        // (kind 0: larger, kind 1: smaller), or there are fewer than 2*order+2 knots (kind 2; image consistent)
         int d = r.below(nd);
-        uint64_t grow = 600 + r.below(600);
+        int kind = r.below(3);
+        if (kind == 2 && ord[d] == 0) { for (int i = 0; i < nd; i++) if (ord[i] > 0) d = i; if (ord[d] == 0) kind = 0; }
+        if (kind == 1 && sh.naxes[d] < 2) kind = 0;
+        h_ikind[kind]++;
         t.deallocate(t.coefficients, t.strides[0] * t.naxes[0]);
-        t.naxes[d] += grow; sh.naxes[d] += grow;
+        if (kind == 0) {
+          // (dimension 0 is the one estimateMemory recomputes from the knot count when no convolution is declared)
+          uint64_t grow = r.coin() ? 1 + r.below(3) : 600 + r.below(600);
+          if (grow > 3 && r.coin()) d = 0;
+          t.naxes[d] += grow;
+        }
+        else if (kind == 1) { t.naxes[d] -= 1 + r.below(t.naxes[d] - 1); }
+        else { t.nknots[d] = ord[d] + 2 + r.below(ord[d]); t.naxes[d] = t.nknots[d] - ord[d] - 1; sh.nknots[d] = t.nknots[d]; }
+        sh.naxes[d] = t.naxes[d];
         t.strides[nd - 1] = 1;
         for (int i = nd - 1; i > 0; i--) t.strides[i - 1] = t.strides[i] * t.naxes[i];
         uint64_t nc = t.strides[0] * t.naxes[0];
@@ -214,6 +274,11 @@ int main(int argc, char** argv) {
       }
       t.write_fits(fits);
     }
+    // cards with unquoted values, added behind the library's back
+    if (c % 3 != 1) {
+      int nplain = (c % 3 == 0) ? r.range(1, 4) : r.range(0, 2);
+      if (!add_plain_cards(fits, r, nplain, wrote, h_plainkind)) { fprintf(stderr, "adding plain cards failed for case %ld\n", c); return 3; }
+    }
     // ---------------------------------------------------------------- cfitsio-only view of the file
     std::vector<Card> cards, kcards;
     std::ostringstream lastk; lastk << "KNOTS" << (nd - 1);
@@ -221,7 +286,19 @@ int main(int argc, char** argv) {
       fprintf(stderr, "cfitsio dump failed for case %ld\n", c); return 3;
     }
     if (cards.size() != wrote.size()) aux_cross_fail++;
-    else for (size_t a = 0; a < cards.size(); a++) if (cards[a].key != wrote[a].first) aux_cross_fail++;
+    else for (size_t a = 0; a < cards.size(); a++) {
+      if (cards[a].key != wrote[a].first) aux_cross_fail++;
+      // a value written through write_key comes back, un-quoted by the harness' own rule, as it was written (FITS pads with blanks)
+      else if (wrote[a].second != "\x01" && rtrim(unquote_own(cards[a].value)) != rtrim(wrote[a].second)) aux_cross_fail++;
+    }
+    std::vector<size_t> storedlen(cards.size());
+    for (size_t a = 0; a < cards.size(); a++) {
+      std::string st = unquote_own(cards[a].value);
+      storedlen[a] = st.size() + 1;
+      (storedlen[a] != cards[a].value.size() + 1 ? h_quoted : h_unquoted)++;
+      if (st.find('\'') != std::string::npos) h_with_inner_quotes++;
+      h_shrink[(int)(cards[a].value.size() + 1 - storedlen[a])]++;
+    }
     h_naux[(int)cards.size() / 10 * 10]++;
     for (size_t a = 0; a < cards.size(); a++) h_card[(int)(cards[a].key.size() + cards[a].value.size() + 2) / 10 * 10]++;
 
@@ -246,6 +323,11 @@ int main(int argc, char** argv) {
     for (size_t q = 0; q < cfgs.size(); q++) {
       Cfg g = cfgs[q];
       size_t est = 0, estdef = 0;
+      fprintf(fc, "C %zu %d %d %d %d %zu %zu", sizeof(CTable), nd, g.n, g.dim, g.doconv, kcards.size(), cards.size());
+      for (int i = 0; i < nd; i++) fprintf(fc, " %u %llu %llu", sh.order[i], (unsigned long long)sh.nknots[i], (unsigned long long)sh.naxes[i]);
+      for (size_t a = 0; a < cards.size(); a++) fprintf(fc, " %zu %zu %zu", cards[a].key.size() + 1, cards[a].value.size() + 1, storedlen[a]);
+      fprintf(fc, "\n");
+      L.reset();
       try {
       if (!g.doconv) { est = CTable::estimateMemory(fits); estdef = psv::Table::estimateMemory(fits); }
       else { est = CTable::estimateMemory(fits, g.n, g.dim); estdef = psv::Table::estimateMemory(fits, g.n, g.dim); }
@@ -254,6 +336,10 @@ int main(int argc, char** argv) {
       {
         CTable t(fits, CountingAlloc<void>(&L));
         evRead = L.ev; L.ev.clear();
+        // what the loaded table holds for every card is what the harness' own un-quoting rule says
+        if (t.naux != cards.size()) stored_cross_fail++;
+        else for (size_t a = 0; a < cards.size(); a++)
+          if (cards[a].key != &t.aux[a][0][0] || unquote_own(cards[a].value) != &t.aux[a][1][0]) stored_cross_fail++;
         if (g.doconv) {
           std::vector<double> k;
           double w = 0.05 + r.unit();
@@ -265,19 +351,20 @@ int main(int argc, char** argv) {
         peak = L.peak; live = L.live; mism = L.mismatched_frees;
       }
       dealloc_mismatch += mism;
-      fprintf(fc, "C %zu %d %d %d %d %zu %zu", sizeof(CTable), nd, g.n, g.dim, g.doconv, kcards.size(), cards.size());
-      for (int i = 0; i < nd; i++) fprintf(fc, " %u %llu %llu", sh.order[i], (unsigned long long)sh.nknots[i], (unsigned long long)sh.naxes[i]);
-      for (size_t a = 0; a < cards.size(); a++) fprintf(fc, " %zu %zu", cards[a].key.size() + 1, cards[a].value.size() + 1);
-      fprintf(fc, "\n");
       fprintf(fi, "est %zu estdef %zu peak %zu live %zu ev", est, estdef, peak, live);
       for (size_t e = 0; e < evRead.size(); e++) fprintf(fi, " %c%zu", evRead[e].kind, evRead[e].bytes);
       fprintf(fi, " |");
       for (size_t e = 0; e < evConv.size(); e++) fprintf(fi, " %c%zu", evConv[e].kind, evConv[e].bytes);
       fprintf(fi, "\n");
       } catch (std::exception& ex) {
-        // the library refused the file (possible for profile I once the reader validates shapes)
+        // the library refused the file (expected for profile I: the reader validates the shape); the ledger shows what had
+        // been requested by then (the coefficient array is requested before the knot counts are compared) and that the
+        // storage guard released all of it
         std::string m = ex.what(); for (size_t z = 0; z < m.size(); z++) if (m[z] == '\n') m[z] = ' ';
-        fprintf(fc, "R\n"); fprintf(fi, "rejected %s\n", m.c_str()); h_rejected++;
+        fprintf(fi, "rejected est %zu peak %zu live %zu %s\n", est, L.peak, L.live, m.c_str()); h_rejected++;
+        if (est && sizeof(CTable) + L.peak > est) rejected_peak_over_estimate++;
+        if (L.live) rejected_live_nonzero++;
+        dealloc_mismatch += L.mismatched_frees;
       }
       lines++;
     }
@@ -285,9 +372,12 @@ int main(int argc, char** argv) {
   unlink(fits.c_str());
   fprintf(fs, "{\"profile\":\"%c\",\"tables\":%ld,\"lines\":%ld,\"no_convolution\":%ld,\"convolutions\":%ld,\"short_keys\":%ld,\"hierarch_keys\":%ld,"
               "\"reserved_rule_disagreements\":%ld,\"dealloc_size_mismatch_during_load_or_convolve\":%ld,\"aux_cross_check_failures\":%ld,"
+              "\"stored_cross_check_failures\":%ld,\"quoted_values\":%ld,\"unquoted_values\":%ld,\"values_with_embedded_quotes\":%ld,\"rejected_loads_whose_transient_exceeds_estimate\":%ld,\"rejected_loads_leaving_bytes_live\":%ld,"
               "\"sizeof_counting_table\":%zu,\"sizeof_default_table\":%zu,\"order0_and_1knot_convolutions_generated\":%s,\"skipped_order0_convolutions\":%ld,\"rejected_by_library\":%ld",
-          profile, ncases, lines, h_noconv, h_conv, h_short, h_long, reserved_disagree, dealloc_mismatch, aux_cross_fail, sizeof(CTable), sizeof(psv::Table), fast0 ? "true" : "false", h_skipped0, h_rejected);
-  struct H { const char* name; std::map<int, long>* m; } hs[] = {{"ndim", &h_ndim}, {"naux_decade", &h_naux}, {"kernel_knots", &h_n}, {"order", &h_order}, {"keylen_plus_vallen_decade", &h_card}};
+          profile, ncases, lines, h_noconv, h_conv, h_short, h_long, reserved_disagree, dealloc_mismatch, aux_cross_fail, stored_cross_fail, h_quoted, h_unquoted, h_with_inner_quotes, rejected_peak_over_estimate, rejected_live_nonzero, sizeof(CTable), sizeof(psv::Table), fast0 ? "true" : "false", h_skipped0, h_rejected);
+  struct H { const char* name; std::map<int, long>* m; } hs[] = {{"ndim", &h_ndim}, {"naux_decade", &h_naux}, {"kernel_knots", &h_n}, {"order", &h_order}, {"keylen_plus_vallen_decade", &h_card},
+                                                   {"vallen_minus_storedlen", &h_shrink}, {"plain_card_kind_long_double_logical_history", &h_plainkind},
+                                                   {"refused_kind_larger_smaller_fewknots", &h_ikind}};
   for (size_t k = 0; k < sizeof(hs) / sizeof(hs[0]); k++) {
     fprintf(fs, ",\"%s\":{", hs[k].name);
     bool first = true;
